@@ -59,11 +59,19 @@ pub trait Packetize: TryFrom<Vec<u8>> + Sized {
 
 pub struct Stream<T> {
     inner: T,
+    /// Frame header bytes received so far by `read_frame`.
+    header_buffer: [u8; PROTO_BUFFER_SIZE],
+    /// Number of valid bytes in `header_buffer`.
+    header_length: usize,
 }
 
 impl<T> Stream<T> {
     pub fn new(inner: T) -> Self {
-        Self { inner }
+        Self {
+            inner,
+            header_buffer: [0u8; PROTO_BUFFER_SIZE],
+            header_length: 0,
+        }
     }
 
     #[inline]
@@ -119,12 +127,28 @@ impl<T: AsyncWrite + Unpin> Stream<T> {
 }
 
 impl<T: AsyncRead + Unpin> Stream<T> {
+    /// Read the next frame header.
+    ///
+    /// This method is cancel safe: header bytes received so far are kept in the stream, so a
+    /// caller that drops the future (e.g. a losing `select!` branch) resumes where it left off
+    /// instead of losing them.
     pub async fn read_frame(&mut self) -> std::io::Result<frame::Frame> {
-        let mut header_buffer = [0u8; PROTO_BUFFER_SIZE];
+        while self.header_length < PROTO_BUFFER_SIZE {
+            let count = self
+                .inner
+                .read(&mut self.header_buffer[self.header_length..])
+                .await?;
 
-        self.inner.read_exact(&mut header_buffer).await?;
+            if count == 0 {
+                return Err(std::io::ErrorKind::UnexpectedEof.into());
+            }
 
-        frame::Frame::try_from(&header_buffer[..]).map_err(|e| {
+            self.header_length += count;
+        }
+
+        self.header_length = 0;
+
+        frame::Frame::try_from(&self.header_buffer[..]).map_err(|e| {
             std::io::Error::new(
                 std::io::ErrorKind::InvalidData,
                 format!("Failed to parse frame: {}", e),
